@@ -260,6 +260,8 @@ def k2_witness(ctx):
 
 
 def run(ctx):
+    import source_facts
+    source_facts.check_messages(ctx)
     tagged = pools(ctx, 60 if ctx.quick else 150)
     groups = []
     for _ in range(40 if ctx.quick else 80):
